@@ -23,7 +23,8 @@ EXPLANATION = (
     " (R7) the reader recomputes TLEN of in-slice mates from min(start) and max(END) of both segments: both alignment_end() results feed one max()."
     " (R9) written-iff-present for the quality score array: every use of the QUALITY_SCORES_ARE_STORED_AS_ARRAY constant in the record converter lies behind a switch on quality_scores().is_empty() (violated today: known finding F31, `QUAL *` records written by noodles do not read back)."
     " (R10) declared raw sizes: the uncompressed_size a writer Block is built with derives from a len() that is not downstream of a codec encode call (genuine defect F35, repaired: the fqzcomp arm declared the compressed length)."
-    " (R11) sentinel vs terminator: the marker written for an unnamed record is free of the terminator of the NUL-terminated name series and is the marker the reader maps back to None (genuine defect F38, repaired). (R12) the predicate that raises the file version to 3.1 names every CRAM 3.1 codec and is asked about every encoder slot of the map (genuine defect F39, repaired).")
+    " (R11) sentinel vs terminator: the marker written for an unnamed record is free of the terminator of the NUL-terminated name series and is the marker the reader maps back to None (genuine defect F38, repaired). (R12) the predicate that raises the file version to 3.1 names every CRAM 3.1 codec and is asked about every encoder slot of the map (genuine defect F39, repaired)."
+    " (R13) the TLEN sign belongs to the leftmost segment: resolve_mates compares alignment starts before it assigns +TLEN / -TLEN (genuine defect F40, repaired).")
 ASSUMPTIONS = ["flate2 Crc/CrcReader/CrcWriter compute CRC32 of exactly the bytes passed through", "md5 crate",
                "function-stem pairing (read_x <-> write_x) reflects the symmetric structure of the two record codecs (floor-checked)"]
 NOT_DECIDED = ["record equality: feature/CIGAR/base reconstruction, mate resolution, every encoder option x codec",
@@ -249,6 +250,9 @@ def run(ctx):
     ctx.rule("C07.R12", "A7 exhaustiveness: the version-3.1 predicate names every CRAM 3.1 codec and is asked about every encoder slot of the map")
     _version_rule(ctx)
 
+    ctx.rule("C07.R13", "TLEN sign belongs to the leftmost segment: resolve_mates compares alignment starts before it assigns +TLEN / -TLEN")
+    _tlen_sign_rule(ctx)
+
     ctx.rule("C07.R7", "A7 span of a template: the reader recomputes TLEN of in-slice mates from min(start of both segments) and max(END of both "
                        "segments) — each alignment_end() result feeds the maximum")
     ft = ctx.anchor("C07.R7", K + "io::reader::container::slice::calculate_template_length_chunk")
@@ -414,6 +418,51 @@ def _version_rule(ctx):
                       "uses_cram_3_1_codecs does not look at %s of the encoder map: a 3.1 codec set there leaves the file at version 3.0" % left, f.loc())
     else:
         ctx.ok("C07.R12", pk + " :: asks every encoder slot", ", ".join(sorted(holders)), f.loc())
+
+
+def _tlen_sign_rule(ctx):
+    """TLEN is positive for the LEFTMOST segment: in resolve_mates every store of a template length happens after a comparison of
+    alignment starts (defect F40: the sign followed the order of the records in the slice)."""
+    fb = ctx.fb
+    key = K + "io::reader::container::slice::resolve_mates"
+    f = ctx.anchor("C07.R13", key)
+    if f is None:
+        return
+    stores = [bi for bi, blk in enumerate(f.blocks) if not blk.get("cu") for st in blk["s"]
+              if st[0] == "=" and any(n == "template_length" for n, _o in C.place_fields(st[1]))]
+    cmps = []
+    for b, kind, ops, t_t, f_t in R._cmp_switches(f):
+        pass
+    for b, c in f.calls():
+        if re.search(r"::(lt|le|gt|ge|cmp|partial_cmp|min|max|min_by_key|max_by_key)$", c.get("f") or ""):
+            def from_start(o, depth=0):
+                l = C.op_local(o)
+                if l is None or depth > 6:
+                    return False
+                for d in C.defs(f).get(l, []):
+                    if d[0] == "=":
+                        rv = d[3]
+                        pl = rv[2] if rv[0] == "ref" else (C.op_place(rv[1]) if rv[0] == "use" else None)
+                        if pl is not None and any(n == "alignment_start" for n, _o in C.place_fields(pl)):
+                            return True
+                        if any(from_start(o2, depth + 1) for o2 in R.rvalue_operands(rv)):
+                            return True
+                return False
+            if any(from_start(a) for a in c["args"]):
+                cmps.append(b)
+    if not stores:
+        ctx.violation("C07.R13", "C07.R13/ANCHOR-MISSING/%s/stores" % key, "resolve_mates no longer stores template lengths", f.loc())
+        return
+    if not cmps:
+        ctx.violation("C07.R13", "C07.R13/sign-without-position/" + key,
+                      "resolve_mates assigns +TLEN / -TLEN without ever comparing the alignment starts of the segments: the sign follows the order "
+                      "of the records in the slice, so a pair whose rightmost segment comes first reads back with both signs flipped", f.loc(stores[0]))
+        return
+    before = [s_ for s_ in stores if not any(s_ in C.reachable(f, c_) for c_ in cmps)]
+    if before:
+        ctx.violation("C07.R13", "C07.R13/sign-before-comparison/" + key, "a template length is stored on a path that has not compared alignment starts", f.loc(before[0]))
+    else:
+        ctx.ok("C07.R13", key + " :: %d template length store(s) follow a comparison of alignment starts" % len(stores), "", f.loc(cmps[0]))
 
 
 def _qs_flag_rule(ctx):
